@@ -198,6 +198,8 @@ func c19File(c *Ctx, k c19Case) (nontrivial bool) {
 	path := c19Path(name)
 	defer os.Remove(path)
 	var werr error
+	// the target already exists and is longer than what will be written (the writers must truncate)
+	os.WriteFile(path, bytes.Repeat([]byte("<old/>{\"old\":1}\n"), 200), 0o644)
 	st, pan := protect(func() {
 		switch {
 		case k.Format == "xml" && k.Indent == [2]string{}:
@@ -445,7 +447,7 @@ func c19Run(c *Ctx) {
 	c.S.Rule = "cases = (list of 1..3 Maps, writer, indent, reader, fault): XML Maps decoded from 6 documents (attributes, repeated siblings, mixed content, special characters), JSON Maps from 6 objects (strings with braces, quotes, backslashes incl. a trailing escaped backslash, nested lists/maps, non-null scalars); writers XmlFile, XmlFileIndent, JsonFile, JsonFileIndent (default and safe) with indents {2 spaces, tab}; readers NewMapsFromXmlFile[Raw], NewMapsFromJsonFile[Raw]; faults: none, EVERY truncation offset, EVERY single-byte corruption offset x {X, <, {, quote, 0xFF}, missing file, directory. Oracle: intact => same count and order, each Map equal to the decode of its own encoding (JSON: the original), Raw contains the document text; truncation => error together with exactly the Maps wholly before the cut (clean end at a boundary); corruption => the Maps wholly before the fault are returned and equal, and for XML count/error agree with a reference sequential reader built on encoding/xml; unreadable file => error. Gob: all Maps encoded first, then all decoded (deep-equal up to nil-vs-empty); Copy: deep-equal, receiver unchanged, no shared container identity. non-trivial = faulted or intact read executed."
 	c.S.Assumptions = []string{"gob cannot distinguish nil from empty containers (encoding/gob)", "callers register map[string]interface{} and []interface{} with encoding/gob (its contract)", "the empty JSON object is skipped by the file readers by design and is not in the alphabet"}
 	xmlDocs := []string{`<a/>`, `<a x="1">t</a>`, `<r><b>&lt;1&gt; &amp; "q"</b><a/></r>`, `<r><a>1</a><b/><a>2</a></r>`, `<r y="2">m<c>v</c></r>`, `<doc><k n="1">é</k></doc>`}
-	jsonDocs := []string{`{"a":1}`, `{"a":"}{\""}`, `{"a":"x\\"}`, `{"a":{"b":[1,{"c":"]"}]},"d":true}`, `{"k":"<&>","l":["s",2.5,false]}`, `{"e":"\\\"{"}`}
+	jsonDocs := []string{`{"a":1}`, `{"a":"}{\""}`, `{"a":"x\\"}`, `{"a":{"b":[1,{"c":"]"}]},"d":true}`, `{"k":"<&>","l":["s",2.5,false]}`, `{"e":"\\\"{"}`, `{"p":"C:\\dir\\ "}`}
 	maxList := 2
 	if c.Thorough {
 		maxList = 3
@@ -508,7 +510,7 @@ func c19Run(c *Ctx) {
 	// gob and Copy: every list of 1..3 Maps from the JSON domain (non-null)
 	var gm []string
 	gm = append(gm, jsonDocs...)
-	gm = append(gm, `{"a":[]}`, `{"a":{}}`, `{"a":[[1],[]]}`, `{"a":"s","b":1.5,"c":true}`)
+	gm = append(gm, `{}`, `{"a":[]}`, `{"a":{}}`, `{"a":[[1],[]]}`, `{"a":"s","b":1.5,"c":true}`)
 	seqs(gm, 3, func(s []string) {
 		if !c.Mine() {
 			return
